@@ -143,6 +143,24 @@ def check_state(desc, sc, pats, res, thin):
                     if 'Q' not in fs and len(got) != len(set(got)):
                         res.add_violation(ID, run.viol('pathlib-duplicate', {'tree': desc, 'pattern': pl, 'flags': fs, 'method': meth},
                                                        'no file twice', [os.path.relpath(x, sc.root) for x in got][:30]))
+        # ---- the same keyword arguments on both sides: match(p, REALPATH, exclude=e) <=> membership in rglob(p, exclude=e)
+        for p_, e_ in (('.h/a', 'a'), ('.h/*', '*'), ('.*', '*'), ('**/.h', '?h'), ('a/.h', '.h'), ('*', 'a'), ('.h/**', 'a/*'), ('**', '*/a')):
+            for fs in ('GE', 'E'):
+                res.n['evaluations'] += 1
+                fl = pl_flags(fs)
+                try:
+                    rgs = set(str(x) for x in here.rglob(p_, flags=fl, exclude=e_))
+                except Exception as e:  # noqa: BLE001
+                    res.add_violation(ID, run.viol('raises', {'tree': desc, 'pattern': p_, 'flags': fs, 'method': 'rglob', 'exclude': e_}, 'lists', type(e).__name__))
+                    continue
+                for q in entries:
+                    qp = WP.Path(q)
+                    m = qp.match(p_, flags=fl | G.REALPATH, exclude=e_)
+                    res.n['match_vs_rglob'] += 1
+                    if m != (str(qp) in rgs):
+                        res.add_violation(ID, run.viol('match-vs-rglob-exclude', {'tree': desc, 'pattern': p_, 'exclude': e_, 'flags': fs, 'path': q},
+                                                       {'in_rglob': str(qp) in rgs}, {'match': m}))
+                        break
         # ---- errors
         for meth in ('glob', 'rglob'):
             for ap in ('/a', '/*', '/', '/**/a', ['a', '/a']):
